@@ -142,7 +142,14 @@ def gen(rng, tier):
                 for b1, b2 in pairs:
                     yield dev, pc, (), op, b1, b2
                     if rng.random() < (0.5 if quick else 1.0):
-                        yield dev, pc, label_tables(rng, dev, pc, op, b1, b2), op, b1, b2
+                        t = label_tables(rng, dev, pc, op, b1, b2)
+                        yield dev, pc, t, op, b1, b2
+                        if rng.random() < 0.3 and len(t) >= 2:
+                            # the same names re-pointed (same size, edited in place by DisBench.set_labels as add_label
+                            # does): the target shown must follow the table as it is now
+                            vs = [v for _, v in t]
+                            vs = vs[1:] + vs[:1]
+                            yield dev, pc, tuple((n, v) for (n, _), v in zip(t, vs)), op, b1, b2
 
 
 # ---------------------------------------------------------------------------------------
